@@ -389,7 +389,7 @@ def _collect(rep, results, state, scope_name):
 def run_bounded(rep: Report, tier: str) -> None:
     quick = tier == "quick"
     rng = random.Random(seed() * 7919 + 11)
-    state = {"viols": [], "deadline": deadline(tier, 75, 25 * 60), "timed_out": False}
+    state = {"viols": [], "deadline": deadline(tier, 240, 25 * 60), "timed_out": False}
     rep.rule = (
         "a case is (equation, operand shapes) [einsum] or (shape_a, shape_b, axes) [tensordot], executed in two array "
         "modes (numpy object arrays; wrapper arrays whose backend has no einsum); equations are canonical up to "
